@@ -1,18 +1,17 @@
 SPECIFICATION Spec
 CONSTANTS
-  Writers <- W3
-  Subs <- S0
+  Writers <- W2
+  Subs <- S2
   Ids <- I1
   MaxV = 6
-  Programs <- CollPrograms
-  SubKinds <- Kinds
+  Programs <- GcPrograms
+  SubKinds <- KindsUo
   InitStores <- CollStores
   PublishAfterUnlock = FALSE
   CreatedRevalidated = TRUE
   SubSer = FALSE
-  MayCancel = FALSE
+  MayCancel = TRUE
   SnapAtCommit = TRUE
   CollectLive = TRUE
-VIEW ViewNoHist
-INVARIANTS TypeOK CommitValid EffectOnce LoserCodes
+INVARIANT EmitSched
 CHECK_DEADLOCK FALSE
